@@ -65,9 +65,14 @@ NonceOf(d, r, s) == BAddMod(BMulMod(s, BAddMod(<<1>>, d, NN), NN), BMulMod(r, d,
 
 \* ---------------- part 4: public key encryption ----------------
 U32BE(ct) == << ct \div 16777216, (ct \div 65536) % 256, (ct \div 256) % 256, ct % 256 >>
-RECURSIVE KdfR(_,_,_,_)
-KdfR(z, klen, ct, acc) == IF Len(acc) >= klen THEN SubSeq(acc, 1, klen) ELSE KdfR(z, klen, ct+1, acc \o Hash(z \o U32BE(ct)))
-KDF(z, klen) == KdfR(z, klen, 1, <<>>)
+\* blocks ct .. to appended to acc; two levels of bounded recursion (32 blocks per chunk) so that the evaluation stack stays shallow for a
+\* key stream of 2^16 bytes (a 2048-deep recursion made every collection of the JVM scan a deep stack: 25 minutes instead of seconds);
+\* each level looks at its accumulator, which forces it there (TLC passes arguments unevaluated)
+RECURSIVE KdfC(_,_,_,_)
+KdfC(z, ct, to, acc) == IF Len(acc) >= 0 /\ ct > to THEN acc ELSE KdfC(z, ct + 1, to, acc \o Hash(z \o U32BE(ct)))
+RECURSIVE KdfG(_,_,_,_)
+KdfG(z, ct, nb, acc) == IF Len(acc) >= 0 /\ ct > nb THEN acc ELSE KdfG(z, ct + 32, nb, KdfC(z, ct, IF ct + 31 < nb THEN ct + 31 ELSE nb, acc))
+KDF(z, klen) == SubSeq(KdfG(z, 1, (klen + 31) \div 32, <<>>), 1, klen)
 XorS(a, b) == [j \in 1..Len(a) |-> a[j] ^^ b[j]]
 AllZero(t) == \A j \in 1..Len(t) : t[j] = 0
 Assemble(c1, c2, c3, order) == IF order = "c1c2c3" THEN c1 \o c2 \o c3 ELSE c1 \o c3 \o c2
